@@ -277,6 +277,9 @@ type e6Interp struct {
 	// fields the function never stores to (and the function makes no calls that could) is evaluated in place, like
 	// pureOfParams values. Used where two functions are compared and one of them has hoisted an invariant.
 	HoistedLoads bool
+	// CanonCmp: ordered comparisons of integers are decided in one canonical form (a < b): a > b is b < a, a <= b is
+	// !(b < a), a >= b is !(a < b) — two siblings that write the same test differently then consult the same atom.
+	CanonCmp bool
 	// OuterName, when set, names values defined outside the region (default: outerName, which uses SSA registers).
 	OuterName func(v ssa.Value) string
 	// MaxAtoms bounds the atoms of one region (default 14).
@@ -306,6 +309,16 @@ func (e *e6Interp) need(s *Sym) bool {
 		if isBoolT(s.Args[0].Type) && (s.Tok == token.EQL || s.Tok == token.NEQ) {
 			a, b := e.need(s.Args[0]), e.need(s.Args[1])
 			return (a == b) == (s.Tok == token.EQL)
+		}
+		if e.CanonCmp && len(s.Args) == 2 && isInteger2(s.Args[0].Type) && isInteger2(s.Args[1].Type) {
+			switch s.Tok {
+			case token.GTR:
+				return e.need(e.binop(token.LSS, s.Args[1], s.Args[0], s.Type))
+			case token.LEQ:
+				return !e.need(e.binop(token.LSS, s.Args[1], s.Args[0], s.Type))
+			case token.GEQ:
+				return !e.need(e.binop(token.LSS, s.Args[0], s.Args[1], s.Type))
+			}
 		}
 		// x < min(a, b) is x < a && x < b (likewise <=), x > max(a, b) is x > a && x > b (likewise >=): decided
 		// conjunct by conjunct, left to right, like the short-circuit form
